@@ -465,6 +465,81 @@ def fiber_switch_context_scenarios():
     return out
 
 
+def function_ending_scenarios():
+    """what a function returns when control reaches its end by every route: the last statement is an if without else, an if / else
+    whose branches return or not, a loop, a block, a try statement, a declaration (also one whose last operand byte happens to be
+    the Return opcode's value, 57), an expression statement; for functions, methods, lambdas with block bodies and initialisers.
+    Every path through the last statement is taken."""
+    out = []
+    endings = ["if-then-returns", "if-else-then-returns", "if-else-else-returns", "if-else-both-return", "if-else-none-return", "nested-if-else",
+               "while-return-inside", "for-return-inside", "block-return-inside", "try-catch-return-in-catch", "try-finally-plain", "var-last",
+               "var-vec57", "var-tuple57", "var-call57", "expr-last", "while-false", "throw-last-caught"]
+    for ending, wrapper in itertools.product(endings, ("fn", "method", "lambda", "nested-fn")):
+        b = Builder()
+        b.fn("many", ["a%d" % i for i in range(57)]); b.ret(b.v("a56")); b.end()
+
+        def body():
+            c = lambda: bin_("==", b.v("n"), lit(1))
+            if ending == "if-then-returns":
+                b.if_(c()); b.ret(lit("then")); b.end()
+            elif ending == "if-else-then-returns":
+                b.if_(c()); b.ret(lit("then")); b.else_(); b.print(lit("else side")); b.end()
+            elif ending == "if-else-else-returns":
+                b.if_(c()); b.print(lit("then side")); b.else_(); b.print(lit("else side")); b.ret(lit("else")); b.end()
+            elif ending == "if-else-both-return":
+                b.if_(c()); b.ret(lit("then")); b.else_(); b.ret(lit("else")); b.end()
+            elif ending == "if-else-none-return":
+                b.if_(c()); b.print(lit("then side")); b.else_(); b.print(lit("else side")); b.end()
+            elif ending == "nested-if-else":
+                b.if_(c()); b.if_(bin_("==", b.v("n"), lit(1))); b.print(lit("inner then")); b.else_(); b.ret(lit("inner else")); b.end(); b.else_()
+                b.if_(bin_("==", b.v("n"), lit(2))); b.ret(lit("second")); b.else_(); b.print(lit("falls")); b.end(); b.end()
+            elif ending == "while-return-inside":
+                b.var("i", lit(0)); b.while_(bin_("<", b.v("i"), lit(3))); b.expr(b.assign("i", bin_("+", b.v("i"), lit(1)))); b.if_(bin_("==", b.v("i"), b.v("n"))); b.ret(tup(lit("in loop"), b.v("i"))); b.end(); b.end()
+            elif ending == "for-return-inside":
+                b.for_("i", {"k": "range", "l": lit(0), "r": lit(3)}); b.if_(bin_("==", b.v("i"), b.v("n"))); b.ret(tup(lit("in for"), b.v("i"))); b.end(); b.end()
+            elif ending == "block-return-inside":
+                b.block(); b.var("inner", lit("blk")); b.if_(c()); b.ret(b.v("inner")); b.end(); b.end()
+            elif ending == "try-catch-return-in-catch":
+                b.try_(); b.if_(c()); b.throw(lit("t")); b.end(); b.print(lit("no throw")); b.catch("e"); b.ret(tup(lit("from catch"), b.v("e"))); b.end()
+            elif ending == "try-finally-plain":
+                b.try_(); b.print(lit("body")); b.finally_(); b.print(lit("fin")); b.end()
+            elif ending == "var-last":
+                b.var("last", lit("unused"))
+            elif ending == "var-vec57":
+                b.var("last", vec(*[lit(i) for i in range(57)]))
+            elif ending == "var-tuple57":
+                b.var("last", tup(*[lit(i) for i in range(57)]))
+            elif ending == "var-call57":
+                b.var("last", call(b.v("many"), *[lit(i) for i in range(57)]))
+            elif ending == "expr-last":
+                b.expr(bin_("+", b.v("n"), lit(1)))
+            elif ending == "while-false":
+                b.while_(lit(False)); b.print(lit("never")); b.end()
+            elif ending == "throw-last-caught":
+                b.if_(c()); b.throw(lit("thrown at the end")); b.end()
+
+        if wrapper == "fn":
+            b.fn("f", ["n"]); b.var("pad", lit("p")); body(); b.end()
+            callee = lambda a: call(b.v("f"), lit(a))
+        elif wrapper == "nested-fn":
+            b.fn("outer", ["n"]); b.fn("f", ["n"]); b.var("pad", lit("p")); body(); b.end(); b.ret(call(b.v("f"), b.v("n"))); b.end()
+            callee = lambda a: call(b.v("outer"), lit(a))
+        elif wrapper == "method":
+            b.class_("K", ctor="new"); b.method("f", ["n"]); b.var("pad", lit("p")); body(); b.end(); b.end()
+            b.var("k", inv(b.v("K"), "new"))
+            callee = lambda a: inv(b.v("k"), "f", lit(a))
+        else:
+            # a lambda cannot hold statements: it calls the function (its own implicit return follows a call)
+            b.fn("f", ["n"]); b.var("pad", lit("p")); body(); b.end()
+            b.var("lm", b.lam(["n"], lambda: call(b.v("f"), b.v("n"))))
+            callee = lambda a: call(b.v("lm"), lit(a))
+        for a in (1, 2, 3):
+            b.try_(); b.print(tup(lit("result"), callee(a))); b.catch("e"); b.print(tup(lit("caught"), b.v("e"))); b.end()
+        b.print(lit("done"))
+        out.append(("ending:%s:%s" % (ending, wrapper), b.toks))
+    return out
+
+
 def cross_module_scenarios():
     """control comes BACK into a module from code of another module in every way the VM has - an exception landing on a
     handler, a fiber yielding / finishing, a function returning, an import completing or failing - and the code that
